@@ -359,3 +359,111 @@ func VerifHarness_TypeCheck() {
 		errors.VerifAssert("incompatible-types-rejected", cerr != nil)
 	}
 }
+
+// ---- value-yielding constructs with a diverging branch ----
+
+// vrDivergeForms: %V is the yielded value, the other branch leaves by return/break/continue/throw.
+var vrDivergeForms = []string{
+	"if 1 < 2 { %V } else { %X }",
+	"if 1 < 2 { %X } else { %V }",
+	"if 1 < 2 { %V } else if 2 < 3 { %X } else { %V }",
+	"{ if 2 < 1 { %X } %V }",
+	"match 1 { 1 => %V, _ => { %X } }",
+	"match 1 { 1 => { %X }, _ => %V }",
+	"try { %V } catch e { %X }",
+}
+var vrDivergeExits = []string{"return;", "break;", "continue;", "throw(\"x\");"}
+
+func vrSubst(s, v, x string) string {
+	out := ""
+	for i := 0; i < len(s); i++ {
+		if s[i] == '%' && i+1 < len(s) {
+			if s[i+1] == 'V' {
+				out += v
+			} else {
+				out += x
+			}
+			i++
+			continue
+		}
+		out += string(s[i])
+	}
+	return out
+}
+
+// VerifHarness_Diverge: an expression one of whose branches diverges has the type of the branch that yields a
+// value: `let a: T1 = <form with value of type T2>` is accepted iff T1 == T2, the recorded types are T2, and the
+// same holds when the expression is a function's result or a call argument.
+func VerifHarness_Diverge() {
+	form := errors.VerifNdIntRange("form", 0, len(vrDivergeForms)-1)
+	exit := errors.VerifNdIntRange("exit", 0, len(vrDivergeExits)-1)
+	ctx := errors.VerifNdIntRange("ctx", 0, 3)
+	t1 := errors.VerifNdIntRange("t1", 0, vrScalarTypes-1)
+	t2 := errors.VerifNdIntRange("t2", 0, vrScalarTypes-1)
+	x := vrDivergeExits[exit]
+	inLoop := exit == 1 || exit == 2
+	expr := vrSubst(vrDivergeForms[form], vrLits[t2], x)
+	errors.VerifTag("case", fmt.Sprintf("%s exit=%s ctx=%d %s<-%s", vrDivergeForms[form], x, ctx, vrTypes[t1], vrTypes[t2]))
+	wrap := func(stmts string) string {
+		if inLoop {
+			return "  loop {\n" + stmts + "    break;\n  }\n"
+		}
+		return stmts
+	}
+	var code string
+	switch ctx {
+	case 0: // annotated let
+		code = vrMain(wrap("  let a: " + vrTypes[t1] + " = " + expr + ";\n  println(a);\n"))
+	case 1: // unannotated let, then assigned a value of type T1
+		code = vrMain(wrap("  let a = " + expr + ";\n  a = " + vrLits[t1] + ";\n  println(a);\n"))
+	case 2: // call argument
+		code = "fn g(p: " + vrTypes[t1] + ") { println(p); }\n" + vrMain(wrap("  g("+expr+");\n"))
+	case 3: // trailing expression of a function (exits that need a loop or return null do not apply)
+		if inLoop || exit == 0 {
+			errors.VerifReached("not-applicable")
+			return
+		}
+		code = "fn f() -> " + vrTypes[t1] + " {\n  " + expr + "\n}\n" + vrMain("  println(f());\n")
+	}
+	verifDebug("program", code)
+	var an verifAnalysis
+	panicked, _ := errors.VerifPanics(func() { an = verifAnalyze(code, nil, nil, true) })
+	if panicked {
+		errors.VerifReached("analyzer-panicked") // C05's subject
+		return
+	}
+	errors.VerifReached("analyzed")
+	if t1 != t2 {
+		errors.VerifAssert("ill-typed-program-rejected", an.hasError)
+		return
+	}
+	if an.hasError {
+		errors.VerifTag("diag", an.describe())
+	}
+	errors.VerifAssert("well-typed-program-accepted", !an.hasError)
+	if an.hasError || ctx > 1 {
+		return
+	}
+	for _, f := range an.modules[verifFile].Functions {
+		if f.Ident.Ident() != "main" {
+			continue
+		}
+		stmts := f.Body.Statements
+		if inLoop {
+			loop, ok := stmts[0].(ast.AnalyzedLoopStatement)
+			if !ok {
+				errors.VerifAssert("loop-statement-recorded", false)
+				return
+			}
+			stmts = loop.Body.Statements
+		}
+		let, ok := stmts[0].(ast.AnalyzedLetStatement)
+		if !ok {
+			errors.VerifAssert("let-statement-recorded", false)
+			return
+		}
+		errors.VerifReached("typed")
+		errors.VerifAssert("recorded-expression-type", let.Expression.Type().String() == vrTypes[t2])
+		errors.VerifAssert("recorded-variable-type", let.VarType.String() == vrTypes[t2])
+	}
+}
